@@ -1,0 +1,20 @@
+//go:build verif
+
+// Contracts for package matlab/common, read by /verif/govc (comment-only file; excluded from every build without the tag "verif").
+package common
+
+// ---- C08: reserved words. An identifier is escaped when its MATLAB spelling (after the case conversion) is reserved.
+// (ComputedFieldIdentifierName looks the model spelling up instead; for member names, which validation restricts to
+// camelCase, the two lookups agree because every MATLAB keyword is a single lower-case word. Not under contract.)
+//@ func FieldIdentifierName
+//@   property C08
+//@   ensures unreserved_spelling_is_kept: !isReservedName[lastResult(formatting.ToSnakeCase)] ==> result == lastResult(formatting.ToSnakeCase)
+//@   ensures reserved_spelling_is_escaped: isReservedName[lastResult(formatting.ToSnakeCase)] ==> result == lastResult(formatting.ToSnakeCase) + "_"
+//@ func EnumValueIdentifierName
+//@   property C08
+//@   ensures unreserved_spelling_is_kept: !isReservedName[lastResult(formatting.ToUpperSnakeCase)] ==> result == lastResult(formatting.ToUpperSnakeCase)
+//@   ensures reserved_spelling_is_escaped: isReservedName[lastResult(formatting.ToUpperSnakeCase)] ==> result == lastResult(formatting.ToUpperSnakeCase) + "_"
+//@ func TypeIdentifierName
+//@   property C08
+//@   ensures unreserved_spelling_is_kept: !isReservedName[name] ==> result == name
+//@   ensures reserved_spelling_is_escaped: isReservedName[name] ==> result == name + "_"
